@@ -56,7 +56,7 @@ include h
 theorem changeState_congr (x : Ctx) (t : Trans) (d : Nat) (s : St) :
     changeState sub sc a x t d s = changeState sub sc b x t d s := by
   unfold changeState
-  rcases h.state_cases t.source with ⟨ha, hb⟩ | ⟨x1, y1, ha, hb, _, hexit, _, _⟩
+  rcases h.state_cases (s.stateOf x.model) with ⟨ha, hb⟩ | ⟨x1, y1, ha, hb, _, hexit, _, _⟩
   · simp only [ha, hb]
   · simp only [ha, hb, hexit]
     congr 1; funext _ s1
